@@ -18,13 +18,15 @@ def run(tier: str) -> int:
         'judged by TLC (Obs_ExaRib + Trace_ExaRib); distinct = distinct modulo renaming of keys/attributes; non-trivial = at least two actions'
     )
     ck.assumptions += [
-        'keys: k1=10.0.1.0/24, k3=2001:db8:3::/48 (+k4 = second ADD-PATH path of k1 in the thorough tier); attrs: x, y (+z)',
+        'keys: k1=10.0.1.0/24, k3=2001:db8:3::/48 and k4 = second ADD-PATH path of the prefix of k1; attrs: x, y (+z)',
         'wire messages are abstracted to (announce/withdraw, key, attribute signature) by harness/wire.py (RFC 4271/4760/7911 splitter)',
         'paths-limit not configured; adj-rib-out kept',
     ]
     if tier == 'quick':
         ribcheck.model_check(ck, ['k1', 'k3'], ['x', 'y'], 7, 'c04q')
         ribcheck.run_rib(ck, 'C04', ['k1', 'k3'], ['x', 'y'], 4, 300, RULES, 'c04q')
+        # two ADD-PATH paths of one prefix: the key of a route is (family, path-id, prefix), not the prefix
+        ribcheck.run_rib(ck, 'C04', ['k6', 'k4'], ['x', 'y'], 3, 400, RULES, 'c04qp')
     else:
         ribcheck.model_check(ck, ['k1', 'k3'], ['x', 'y'], 9, 'c04t', timeout=2400)
         ribcheck.run_rib(ck, 'C04', ['k1', 'k3'], ['x', 'y'], 5, 3000, RULES, 'c04t')
